@@ -162,6 +162,33 @@ def run(model, rep):
     rep.rule('C10.E2E', 'renaming end to end on probe modules with preserve lists: the listed names keep their spelling, everything else is still renamed consistently')
     rename_e2e.run(model, rep, 'C10.E2E', only=('rename_locals with preserved names',))
 
+    # names that look special but are ordinary identifiers (soft keywords, a builtin name, the underscore),
+    # in every spelling of the argument: they are preserved like any other name
+    odd_src = ('def scan(text, type=None):\n    match = search(text)\n    case = lower(text)\n    _ = upper(text)\n    print = show(text)\n'
+               '    found = match or case or _ or print or type\n    return match, case, _, print, found, match, case, _, print, type, type\n'
+               'def handler(event, context):\n    return scan(event), scan(context), scan(event)\nresult = handler(1, 2), handler(3, 4)\n')
+    odd = ['match', 'case', '_', 'print']
+    for spelling, value in (('list', list(odd)), ('tuple', tuple(odd))) + tuple(('the bare string %r' % n_, n_) for n_ in odd):
+        names_ = list(value) if not isinstance(value, str) else [value]
+        for which in ('preserve_locals', 'preserve_globals'):
+            key = 'C10.E2E|odd names|%s|%s' % (which, spelling)
+            src_ = odd_src if which == 'preserve_locals' else odd_src.replace('def scan(text, type=None):\n', '').replace('    return match', 'return_value = match').replace('    ', '')
+            if which == 'preserve_globals':
+                src_ = 'text = 1\n' + '\n'.join(l for l in odd_src.split('\n')[1:7]).replace('    ', '').replace('return match', 'kept = (match') + ')\n'
+            try:
+                ast.parse(src_)
+            except SyntaxError:
+                raise AnalysisError('probe for odd preserved names does not parse')
+            try:
+                text_ = rename_e2e.run_pipeline(model, src_, rename_locals=True, rename_globals=True, **{which: value})
+            except rename_e2e.MinifyRaises as ex:
+                rep.violation('C10.E2E', mi.loc(), '%s=%s' % (which, spelling), '%s: minify fails' % ex, key=key)
+                continue
+            new_of, _p = rename_e2e.final_names(src_, text_)
+            lost = {n_: sorted(new_of.get(n_, [])) for n_ in names_ if new_of.get(n_) != {n_}}
+            others = [n_ for n_ in ('found', 'text') if n_ in new_of and new_of[n_] != {n_}]
+            rep.check(not lost, 'C10.E2E', mi.loc(), '%s given as %s (soft keywords, a builtin name, the underscore)' % (which, spelling), 'every listed name keeps its spelling',
+                      'names listed in %s are renamed: %s -- output: %r' % (which, lost, text_[:140]), key=key)
     # white-box: written against the permission gates and the assignment loop by name; not evaluated when those do not exist under their names
     def guard():
         # ---------------- GUARD: gates pin exactly the preserved names (abstract evaluation)
